@@ -202,7 +202,7 @@ def fltCands (f : Fmt) (d : NT) : List Fl :=
     [pow false k, pow true k].filterMap id
   let odd : List Fl :=     -- values that need rounding when narrowed to f32
     ([(16777217, 0), (16777219, 0), (33554434, 0), (33554438, 0), (16777217, 104), (16777215, 104),
-      (16777217, -170), (3, -150), (1, -150), (16777217, -173)] : List (Nat × Int)).filterMap fun (m, e) =>
+      (16777217, -170), (3, -150), (1, -150), (16777217, -173), (3, 127), (16777215, 105), (16777217, 105)] : List (Nat × Int)).filterMap fun (m, e) =>
       if representable f m e then some (.fin false m e) else none
   let odd := odd ++ odd.map fun x => match x with | .fin _ m e => .fin true m e | y => y
   [.nan, .inf false, .inf true, .fin false 0 0, .fin true 0 0] ++ bounds ++ small ++ pows ++ odd
